@@ -216,6 +216,8 @@ class PseudoOperand(Operand):
                 self.value = DirectNumericValue(self.value.int)
 
     def resolve_symbols(self, symbol_table):
+        if self.instruction.mnemonic == "END" and self.value.is_symbol():
+            self.value.resolve(symbol_table)
         return self
 
     def translate(self):
